@@ -26,6 +26,9 @@ Definition expected_debug_body : bytes :=
 Definition expected_serialize_body : bytes :=
   b "fn serialize<S>(&self, serializer: S) -> Result<S::Ok, S::Error> where S: serde::Serializer, { <str as Serialize>::serialize(PLACEHOLDER, serializer) }".
 Definition expected_derives : bytes := b "Clone,Eq,PartialEq".
+(* the input side: the text becomes a SecretKey at once, and nothing of it can end up in an error value *)
+Definition expected_deserialize_body : bytes :=
+  b "fn deserialize<D>(deserializer: D) -> Result<SecretKey, D::Error> where D: serde::Deserializer<'de>, { <String as Deserialize>::deserialize(deserializer).map(SecretKey::from) }".
 
 (* a type with a secret-bearing field prints it through the field's own Debug / Serialize (derive) or not at all; a
    hand-written impl must be reviewed and listed here *)
